@@ -102,6 +102,17 @@ CLAIMED = {
              "agreement of batched calls.",
         note="Entry points that cannot run here are listed in the evidence (unrunnable_entry_points), never silently skipped. "
              "Array sizes are fixed (8x8 pools); purity for other shapes is not explored."),
+    "C09": dict(
+        engine="tlc+replay+trace", design_ref="DESIGN.md §3 C09",
+        technique="TLA+ spec Fourier.tla: each transform as roll o DFT o roll with an integer exponent table; inverse pair, scaled unitarity (Parseval), centring and shift theorem decided exactly on the tables by the vanishing rule for sums of roots of unity; Namespace.tla replays the package's recorded import statements (last writer wins) to decide which implementation each exported Fourier name is bound to; the real functions (module and package exports) are compared with the tables' operator for every length, batch shape and spacing",
+        text="TLC decides the four laws for every length 1..16 (32) including odd lengths, and that the screen module's private "
+             "inverse transform is an inverse of ft2 only for even sizes; the real ft/ift/ft2/ift2 - as exported by the package and by "
+             "the Fourier module - are compared with the model's operator on random complex inputs with 0-2 batch axes and three "
+             "spacings, on every basis impulse, plus round trips, Parseval and linearity; the import trace of aotools/__init__.py is "
+             "validated against the star-import model and the final bindings of the eight Fourier names checked.",
+        note="Known findings (recorded, not repaired): rft/irft and rft2/irft2 are not inverse pairs (exact failure signatures in "
+             "known_findings.json). 2-D transforms on square arrays only. 'Approximates the continuous transform' = centring + shift "
+             "theorem only."),
 }
 
 NOT_APPLICABLE = {
